@@ -787,3 +787,19 @@ func (c *Cluster) DeleteTopic(name string) {
 	delete(c.topics, name)
 	c.notifyLocked()
 }
+
+// MoveBrokerPort makes broker id advertise (and listen on) another port, as a broker restarted on the same host with a
+// different listener does.  The old address keeps accepting connections (something else may still listen there).
+func (c *Cluster) MoveBrokerPort(id int32, port int) {
+	c.mu.Lock()
+	b := c.brokers[id]
+	if b == nil {
+		c.mu.Unlock()
+		return
+	}
+	b.Port = int32(port)
+	addr := b.Addr()
+	c.notifyLocked()
+	c.mu.Unlock()
+	c.Net.Listen(addr, func(sc *memnet.ServerConn) { c.serve(b, sc) })
+}
